@@ -1,7 +1,7 @@
 """Which drivers, trusted base and assumptions belong to which property (the functions come from the
 `props = [...]` tags of the contracts themselves)."""
 
-T_PY = "T-PY: the engine's encoding of the Python subset (DESIGN.md 2.2; validated against CPython by bounded/axcheck, not proved)"
+T_PY = "T-PY: the engine's encoding of the Python subset (DESIGN.md 2.2; cross-checked by evaluating the same contracts natively on real executions and by the seeded-change self-test, not proved)"
 T_SMT = "T-SMT: answers of z3 5.1.0 / cvc5 1.0.3 / z3 4.8.12"
 A_INT = "Python ints are mathematical integers (exact); strings are sequences of code points <= U+2FFFF (A1)"
 A_TERM = "partial correctness only: termination of recursion (to_text over nested directives) is not proved (A5)"
